@@ -413,12 +413,85 @@ def run_prop(prop, tier, seed):
     rep.cov["traces_validated_against_impl"] = len(texts)
     rep.notes["model_mismatches"] = mism
     rep.notes["generator_underlying_histories_checked_by_predicates_only"] = len(gen_cases)
+    if prop == "C07":
+        fails += transient_error_probes(rep)
     if prop == "C08":
         fails += shared_iterator_oracle(rep, rng, tier)
         fails += scope_object_probes(rep)
     if not proofs_ok:
         rep.violation("proof-broken", {"broken": rep.notes.get("broken_file", "?"), "log": rep.notes.get("build_log_tail", "")[-1500:]}, no_input=True)
     return rep.finish()
+
+
+def transient_error_probes(rep):
+    """C07, directed: an error of the underlying iterator passes through the borrowed handle (the underlying survives it:
+    class-based); the handle is then closed -- directly, through iter(), or by a closing tool -- and must be dead for
+    __anext__, asend and athrow alike, the underlying open, its remaining items going to the owner in order"""
+    fails = 0
+
+    class Flaky(USend):
+        fail = False
+
+        async def __anext__(self):
+            if self.fail:
+                self.fail = False
+                raise KeyError("transient")
+            return await USend.__anext__(self)
+    for how in ("direct", "iter", "tool"):
+        for via in ("anext", "asend", "athrow"):
+            u = Flaky([Obj(j + 1, j) for j in range(6)])
+            got = {}
+
+            async def go():
+                h = a.borrow(u)
+                got["first"] = (await h.__anext__()).id
+                u.fail = True
+                try:
+                    await h.__anext__()
+                    got["transient"] = "not raised"
+                except KeyError:
+                    got["transient"] = "raised"
+                if how == "direct":
+                    await h.aclose()
+                elif how == "iter":
+                    await a.iter(h).aclose()
+                else:
+                    t = a.enumerate(h)
+                    try:
+                        await t.__anext__()      # (a tool that was never advanced does not touch its input at all)
+                    except StopAsyncIteration:
+                        pass
+                    await t.aclose()
+                try:
+                    if via == "anext":
+                        x = await h.__anext__()
+                    elif via == "asend":
+                        x = await h.asend(None)
+                    else:
+                        x = await h.athrow(ValueError("thrown into a closed handle"))
+                    # (athrow into a finished async generator just returns None on some interpreter versions: nothing delivered)
+                    got["after"] = ("item", x.id) if isinstance(x, Obj) else ("dead", "returned %r" % (x,))
+                except (StopAsyncIteration, ValueError, RuntimeError, AttributeError) as e:
+                    got["after"] = ("dead", type(e).__name__)
+                got["owner"] = [(await u.__anext__()).id for _ in range(2)]
+            try:
+                drive(go())
+                why = None
+                if got.get("transient") != "raised":
+                    why = "the underlying iterator's error did not surface through the handle"
+                elif got["after"][0] != "dead":
+                    why = "a closed handle delivered %r through %s" % (got["after"], via)
+                elif u.closed:
+                    why = "the underlying iterator was closed"
+                elif got["owner"] != [2, 3]:
+                    why = "the owner received %r, expected items 2, 3" % (got["owner"],)
+            except BaseException as e:  # noqa
+                why = "failed with %r (%r)" % (e, got)
+            rep.count(("transient-error", how, via), True)
+            if why:
+                fails += 1
+                rep.violation("borrow:transient-error", {"closed": how, "then": via, "why": why})
+    return fails
 
 
 def scope_object_probes(rep):
